@@ -11,14 +11,11 @@ TRUSTED_BASE_COMMON = [
 # axioms of the Coq standard library that a theorem may depend on (none needed so far)
 AXIOM_ALLOWLIST = set()
 
-PROPS = {
-    "C18": {
-        "group": "c18",
-        "level": "proof",
-        "coq_targets": ["Properties/C18.vo"],
-        "correspondence": "flags (is_match, can_match, will_always_match) of fst::automaton::{Str,Subsequence,AlwaysMatch,StartsWith,Union,Intersection,Complement} after every prefix = FstV.Automaton.trace_exp",
-        "rule": "expressions: every leaf (Str/Subsequence over 9 patterns, AlwaysMatch, every 1- and 2-state 2-class table DFA with every sound hint assignment, sampled 3-state) alone and under unary combinators, plus random compositions of depth 1..3; each run on strings over {a,b,z} (all of length 5 for leaves, sampled otherwise) with flags observed after every prefix; non-trivial = has at least one combinator and a non-empty string; S = is_match per prefix vs Coq language semantics `sem`, M = hint bits vs model, X = brute-force soundness of the implementation's hints over all continuations of length <= 3",
-        "modelled": ["src/automaton/mod.rs (all of it except the blanket impl for &T, which only forwards)"],
-        "assumptions": ["Subsequence::accept indexes subseq[state]: proved in-bounds for every state reachable from start (C18_subseq_index_safe)"],
-    },
-}
+
+import importlib.util, os, glob
+PROPS = {}
+for _p in sorted(glob.glob(os.path.join(os.path.dirname(os.path.abspath(__file__)), "propcfg", "C*.py"))):
+    _spec = importlib.util.spec_from_file_location(os.path.basename(_p)[:-3], _p)
+    _m = importlib.util.module_from_spec(_spec)
+    _spec.loader.exec_module(_m)
+    PROPS[os.path.basename(_p)[:-3]] = _m.CFG
